@@ -10,7 +10,7 @@ use crate::{
     shared::util::itime::ITimestamp,
     tz::{Offset, TimeZone},
     util::{
-        rangeint::{self, Composite, RFrom, RInto},
+        rangeint::{self, Composite, RFrom, RInto, TryRFrom},
         round::increment,
         t::{
             self, FractionalNanosecond, NoUnits, NoUnits128, UnixMicroseconds,
@@ -3664,7 +3664,10 @@ impl TimestampRound {
             self.smallest,
             increment,
         );
-        let nanosecond = UnixNanoseconds::rfrom(rounded);
+        // Rounding can move a timestamp near the minimum or maximum out of
+        // the supported range, so this must be a checked conversion.
+        let nanosecond =
+            UnixNanoseconds::try_rfrom("rounded timestamp", rounded)?;
         Ok(Timestamp::from_nanosecond_ranged(nanosecond))
     }
 }
